@@ -514,14 +514,31 @@ func (r *replayer) build(pkg string) (string, string) {
 	return bin, ""
 }
 
+// run replays natively. Timer-driven behaviour (the stage re-examines a held
+// file every 10 s) does not show in a replay that lasts milliseconds: a replay
+// that does not reproduce is repeated once in real time (the harness then
+// waits 11 s wherever the engine fired the pending timers).
 func (r *replayer) run(pkg, replay string) string {
+	v := r.run1(pkg, replay, false)
+	if strings.HasPrefix(v, "NOT-REPRODUCED") {
+		if v2 := r.run1(pkg, replay, true); strings.HasPrefix(v2, "REPRODUCED") {
+			return v2 + " (in real time: timers waited for)"
+		}
+	}
+	return v
+}
+
+func (r *replayer) run1(pkg, replay string, slow bool) string {
 	bin, msg := r.build(pkg)
 	if msg != "" {
 		return "REPLAY-ERROR " + msg
 	}
-	cmd := exec.Command(bin, "-test.run", "^TestVerifReplay$", "-test.count=1", "-test.timeout=120s")
+	cmd := exec.Command(bin, "-test.run", "^TestVerifReplay$", "-test.count=1", "-test.timeout=300s")
 	cmd.Dir = filepath.Join(repoDir, pkg)
 	cmd.Env = append(os.Environ(), "VERIF_REPLAY="+replay)
+	if slow {
+		cmd.Env = append(cmd.Env, "VERIF_REPLAY_SLOW=1")
+	}
 	out, _ := cmd.CombinedOutput()
 	for _, l := range strings.Split(string(out), "\n") {
 		if strings.HasPrefix(l, "VERIF-REPLAY-VERDICT: ") {
